@@ -169,6 +169,8 @@ def check(run):
     _r7(run, mi)
     _r8(run, mi)
     _r9(run, mi)
+    from ..cachekey import check_caches
+    check_caches(run, [mi], 'C09-K', prog=prog)
     run.include('C13', {'cherab/core/math/mappers.pyx'}, 'the 3D abundance functions are the 2D profiles behind AxisymmetricMapper')
     run.include('C06', {'cherab/openadas/repository/atomic.py'}, 'the balance is solved with the ionisation / recombination / CX rates most recently written to the repository')
 
